@@ -499,6 +499,10 @@ theorem strictWeak_nat_half : StrictWeak (fun a b : Nat => decide (a / 2 < b / 2
 theorem half_not_total : ¬ EquivIsEq (fun a b : Nat => decide (a / 2 < b / 2)) :=
   fun h => absurd (h 2 3 (by decide) (by decide)) (by decide)
 
+-- non-vacuity of the hypothesis `StrictWeak` of every theorem above: the comparators of the harness
+example : StrictWeak (fun a b : Nat => decide (a < b)) := strictTotal_nat_lt.toWeak
+example : StrictWeak (fun a b : Nat => decide (a > b)) := strictTotal_nat_gt.toWeak
+
 /-- the former hypothesis `StrictTotal` is exactly `StrictWeak` + `EquivIsEq` (`==` is the comparator's equivalence) -/
 theorem strictTotal_iff : StrictTotal lt ↔ StrictWeak lt ∧ EquivIsEq lt :=
   ⟨fun h => ⟨h.toWeak, h.equivIsEq⟩, fun h => StrictTotal.of h.1 h.2⟩
